@@ -26,7 +26,13 @@ RULE = ("the C01 complete small layer (documents <= 3 nodes x 1-segment vocabula
         "FOLLOWED by further segments (re-descent, a second `[parent(m)]`); the complete set of lists of <= 4 elements over "
         "{null, {a: &x 1}, {a: 2}, {b: *x, a: 3}} (root / under a key / in a list) x `[has_child(&x)]`, `[!has_child(&x)]` alone and "
         "followed by a key / `*` / `[parent()]`, plus 6 000 random lists of maps with null elements, maps of maps and plain lists "
-        "with anchored / aliased children x `[(!)has_child(&name)]`.  distinct_nontrivial = distinct (document, path) with a non-empty result; "
+        "with anchored / aliased children x `[(!)has_child(&name)]`; 6 000 Hashes of Hashes (child keys from the punctuation set, also "
+        "dotted host names / keys with a slash) and Arrays-of-Hashes, with null / scalar members, at the root / under a (punctuation) key / "
+        "in a list x `[min|max|unique|distinct|has_child(NAME)]` plain and inverted, alone or followed by the attribute / `*` / `[parent(n)]` / `**`.  "
+        "BOTH NOTATIONS OF THE QUERY: every query with a keyword segment and a third of the others is also WRITTEN in forward-slash "
+        "notation (when the real parser reads the same segments); every result it reports differently from the dot query (other path "
+        "text, other coordinates) is judged on the real code: parent[parentref] is the node, the ancestry walks from the root, the reported "
+        "path - as it is and rendered in either notation - re-resolves to the node.  distinct_nontrivial = distinct (document, path) with a non-empty result; "
         "results at depth >= 2 are counted in the histogram (deep_results).")
 
 
@@ -37,7 +43,8 @@ def absorb02(chk, results):
         nontrivial += stats["nontrivial"]
         chk.out_of_model += stats["oom"]
         for k in ("queries", "nonempty", "ypath", "crash", "unparsable", "virtual", "deep_results", "requeries", "kw_judged", "kw_results",
-                  "opt_judged", "opt_created", "opt_results", "rendered_requeries", "unmodelled_judged", "unmodelled_results"):
+                  "opt_judged", "opt_created", "opt_results", "rendered_requeries", "unmodelled_judged", "unmodelled_results",
+                  "fslash_judged", "fslash_skipped", "fslash_results", "fslash_fresh_results"):
             chk.count(k, stats.get(k, 0))
         for k, v in stats["kinds"].items():
             chk.count("segment:" + k, v)
@@ -280,9 +287,64 @@ def has_child_anchor_cases(rng, n):
     return out
 
 
+KW_NAMED = ["min(%s)", "max(%s)", "!min(%s)", "!max(%s)", "unique(%s)", "!unique(%s)", "distinct(%s)", "has_child(%s)", "!has_child(%s)",
+            "min(%s)", "max(%s)"]
+
+
+def kw_collection_cases(rng, n):
+    """Keywords that take an attribute NAME (min / max / unique / distinct / has_child, plain and inverted) applied to the
+    collections they scan member by member - a Hash of Hashes (child keys drawn from the escapable punctuation set: the
+    reported path of a selected child ends in its escaped key), an Array-of-Hashes, sometimes with null / scalar members -
+    at the root, under a (punctuation) key, inside a list, reached by key / `*` / `**`; alone or followed by one more
+    segment (the attribute, `*`, `[parent()]`, `[parent(2)]`).  Values: small ints with ties, a null, a missing attribute."""
+    out = []
+    I = lambda v: {"k": "int", "v": str(v)}     # noqa: E731
+    for _ in range(n):
+        attrs = rng.sample(["a", "b", "c"], rng.randint(1, 2))
+
+        def member():
+            q = rng.random()
+            if q < 0.08:
+                return {"k": "null"}
+            if q < 0.13:
+                return I(rng.randint(0, 3))
+            es = []
+            for at in attrs:
+                r = rng.random()
+                if r < 0.75:
+                    es.append([at, I(rng.randint(0, 3))])
+                elif r < 0.85:
+                    es.append([at, {"k": "null"}])
+            if rng.random() < 0.3:
+                es.append([rng.choice(PUNCT2[:-3] + ["z"]), I(7)])
+            return {"k": "map", "e": es}
+        nm = rng.randint(1, 5)
+        if rng.random() < 0.65:
+            keys = rng.sample([k for k in PUNCT2 + ["web.example.com", "cache/01", "x.y/z", "k"] if k not in attrs and k != 1], nm)
+            coll = {"k": "map", "e": [[k, member()] for k in keys]}
+        else:
+            coll = {"k": "seq", "i": [member() for _i in range(nm)]}
+        w = rng.random()
+        if w < 0.3:
+            d, pre = coll, []
+        elif w < 0.75:
+            k = rng.choice(["hosts", "r"] + [k for k in PUNCT2 if isinstance(k, str)])
+            d = {"k": "map", "e": [[k, coll], ["s", I(1)]]}
+            pre = [rng.choice([ev.key_text(k)] * 3 + ["*", "**"])]
+        else:
+            d = {"k": "seq", "i": [I(0), {"k": "map", "e": [["t", coll]]}]}
+            pre = rng.choice([["[1]", "t"], ["t"], ["**", "t"], ["[-1]", "*"]])
+        kw = "[%s]" % (rng.choice(KW_NAMED) % rng.choice(attrs + ["a"]))
+        tail = []
+        if rng.random() < 0.4:
+            tail.append(rng.choice([attrs[0], "*", "[parent()]", "[parent(2)]", "**"]))
+        out.append((d, pre + [kw] + tail))
+    return out
+
+
 def run(chk: core.Check):
     core.use_repo()
-    opts = {"c02": True, "slash": False}
+    opts = {"c02": True, "slash": False, "c02_fslash": True}
     if chk.replay_in:
         rp = json.load(open(chk.replay_in))
         c = rp.get("case", rp)
@@ -321,6 +383,7 @@ def run(chk: core.Check):
     chk.extra_cov["has_child_anchor_layer"] = "%d cases: lists of <= 4 elements over {null, {a: &x 1}, {a: 2}, {b: *x, a: 3}}" % len(hcs)
     cases += hcs
     cases += has_child_anchor_cases(rng, 6000 if chk.tier == "quick" else 60000)
+    cases += kw_collection_cases(random.Random(chk.seed * 5 + 2), 6000 if chk.tier == "quick" else 60000)
     rng.shuffle(cases)
     chk.exhaustive = True
     cases = c01.subsample(chk, cases)
